@@ -11,7 +11,7 @@ import (
 
 // Seg is one segment of a data recipe.
 type Seg struct {
-	Kind string `json:"kind"` // zeros run random text counter copyback
+	Kind string `json:"kind"` // zeros run random text counter copyback mix farmix
 	Len  int    `json:"len"`
 	B    byte   `json:"b,omitempty"`
 	Seed uint64 `json:"seed,omitempty"`
@@ -113,6 +113,72 @@ func (r Recipe) Expand() []byte {
 			for i := 0; i < s.Len; i++ {
 				out = append(out, s.B+byte(i))
 			}
+		case "farmix":
+			// a base block of random bytes (K KiB, stored uncompressed by the
+			// writer), then short random literal runs interleaved with copies
+			// of random length taken from anywhere in the base block: matches
+			// with large, ever-changing distances and lengths - the most
+			// expensive operations the coder has - next to every chunk limit
+			p := NewPRNG(s.Seed)
+			base := s.K << 10
+			if base > s.Len {
+				base = s.Len
+			}
+			start := len(out)
+			blk := make([]byte, base)
+			p.Fill(blk)
+			out = append(out, blk...)
+			for len(out)-start < s.Len {
+				v := p.Next()
+				for l := 1 + int(v%12); l > 0 && len(out)-start < s.Len; l-- {
+					out = append(out, byte(p.Next()>>17))
+				}
+				m := 2 + int((v>>16)%60)
+				if (v>>32)%4 == 0 {
+					m = 18 + int((v>>36)%256)
+				}
+				src := start + int((v>>20)%uint64(base-300+1))
+				for i := 0; i < m && len(out)-start < s.Len; i++ {
+					out = append(out, out[src+i])
+				}
+			}
+		case "mix":
+			// many short literal runs interleaved with copies of random length
+			// and distance (what binary data looks like to the encoder): every
+			// kind of operation occurs next to every chunk / block / buffer limit
+			p := NewPRNG(s.Seed)
+			k := s.K
+			if k < 1 {
+				k = 40
+			}
+			start := len(out)
+			for len(out)-start < s.Len {
+				v := p.Next()
+				for l := 1 + int(v%uint64(k)); l > 0 && len(out)-start < s.Len; l-- {
+					out = append(out, byte(p.Next()>>17))
+				}
+				m := 2 + int((v>>16)%39)
+				switch (v >> 32) % 8 {
+				case 0:
+					m = 273
+				case 1:
+					m = 18 + int((v>>36)%256)
+				}
+				maxd := len(out)
+				if s.Dist > 0 && maxd > s.Dist {
+					maxd = s.Dist
+				}
+				if maxd < 1 {
+					continue
+				}
+				d := 1 + int((v>>44)%uint64(maxd))
+				if (v>>40)%4 == 0 {
+					d = 1 + int((v>>44)%uint64(min(maxd, 300))) // near distances
+				}
+				for ; m > 0 && len(out)-start < s.Len; m-- {
+					out = append(out, out[len(out)-d])
+				}
+			}
 		case "copyback":
 			d := s.Dist
 			if d < 1 {
@@ -210,12 +276,30 @@ func SegOf(t *rapid.T, n int, sofar int, kinds []string) Seg {
 		s.K = rapid.SampledFrom([]int{1, 2, 4, 26}).Draw(t, "k")
 	case "counter":
 		s.B = rapid.Byte().Draw(t, "b")
+	case "mix":
+		s.Seed = rapid.Uint64().Draw(t, "seed")
+		s.K = rapid.SampledFrom([]int{3, 40, 40, 200}).Draw(t, "mixk")
+		s.Dist = rapid.SampledFrom([]int{0, 0, 4096, 65536}).Draw(t, "mixdist")
 	case "copyback":
 		max := sofar
 		if max < 1 {
 			max = 1
 		}
 		s.Dist = rapid.IntRange(1, max).Draw(t, "dist")
+		// distances at the boundaries of the distance coding: 2^k-1, 2^k, 2^k+1
+		// (slot changes, 64 KiB, 16 MiB ...)
+		if max >= 4 && rapid.IntRange(0, 2).Draw(t, "distpow2") == 0 {
+			k := rapid.IntRange(1, 24).Draw(t, "distk")
+			for (1<<k)+1 > max {
+				k--
+			}
+			s.Dist = 1<<k + rapid.IntRange(-1, 1).Draw(t, "distpm")
+		}
+		// lengths at the boundaries of the length coding (2..9 low, 10..17 mid,
+		// 18..273 high; 256-258 are the first values that need nine bits)
+		if n >= 300 && rapid.IntRange(0, 5).Draw(t, "lenedge") == 0 {
+			s.Len = rapid.SampledFrom([]int{2, 3, 9, 10, 11, 17, 18, 19, 255, 256, 257, 258, 259, 260, 261, 272, 273, 274, 275}).Draw(t, "lenval")
+		}
 		// repeats whose length leaves 0..3 bytes after whole maximum-length
 		// matches (273): the encoder has to finish with a match of the minimum
 		// length or with literals coded against the match byte
@@ -242,8 +326,26 @@ func EdgeRecipe(t *rapid.T, dictCap int) Recipe {
 	}
 }
 
+// RepChainRecipe draws incompressible data that brings an LZMA2 chunk close
+// to its 64 KiB compressed-size limit, followed by a chain of maximum-length
+// copies that cycle through four distances (rep matches that cost almost no
+// output), then a tail: the encoder has to close the chunk while operations
+// that emit no bytes are pending.
+func RepChainRecipe(t *rapid.T) Recipe {
+	r := Recipe{{Kind: "random", Len: rapid.IntRange(64450, 64750).Draw(t, "rc_prefix"), Seed: rapid.Uint64().Draw(t, "rc_seed")}}
+	var d [4]int
+	for i := range d {
+		d[i] = rapid.IntRange(300+i*1000, 1200+i*1000).Draw(t, "rc_dist")
+	}
+	n := rapid.IntRange(6, 40).Draw(t, "rc_n")
+	for i := 0; i < n; i++ {
+		r = append(r, Seg{Kind: "copyback", Dist: d[i%4], Len: 273})
+	}
+	return append(r, Seg{Kind: "text", K: 4, Len: rapid.IntRange(0, 3000).Draw(t, "rc_tail"), Seed: 9})
+}
+
 // AllKinds lists the segment kinds.
-var AllKinds = []string{"zeros", "run", "random", "text", "counter", "copyback"}
+var AllKinds = []string{"zeros", "run", "random", "text", "counter", "copyback", "mix", "mix"}
 
 // DrawRecipe draws 0..maxSegs segments with lengths from classes, total at
 // most maxTotal.
